@@ -10,6 +10,7 @@ mod ast;
 mod e2e;
 mod micro;
 mod refsql;
+mod specials;
 mod tbl;
 
 use hxlib::util::{Args, Rng, Sink, Stream};
@@ -39,6 +40,7 @@ fn main() {
     let only = args.rest.iter().position(|a| a == "--only").and_then(|i| args.rest.get(i + 1)).cloned();
     rt.block_on(async {
         if only.as_deref() != Some("e2e") {
+            specials::run(&mut sink, &mut ss).await;
             micro::run(&mut sink, &mut mic, &mut act).await;
         }
         if only.as_deref() != Some("micro") {
